@@ -7,5 +7,5 @@
 //@pinfile file=cfgrammar/src/lib/yacc/parser.rs sha=6ef477d7cbbde140
 //@pinfile file=cfgrammar/src/lib/yacc/ast.rs sha=b152c25de197a916
 //@pinfile file=lrlex/src/lib/parser.rs sha=ee184a9fe8ea3991
-//@pinfile file=lrlex/src/lib/lexer.rs sha=448f544bab49b763
+//@pinfile file=lrlex/src/lib/lexer.rs sha=fd89bb00760c980b
 //@use prelude/tail.rs
